@@ -26,10 +26,10 @@ CHECKS = {
  "C03": ("vp-conn", True, "exploration", "runtime monitor over recorded adapter arguments and decoded packets",
    "Random routing scenarios with scripted (adversarial) filter and strategy outcomes; the checker compares list hand-over between stages, the Transfer with the chosen target and the Disconnect text with an independent locale fall-back over random tables served by the repository's FixedLocalizationAdapter.",
    "locales are generated in lower case only", "DESIGN.md §5 C03"),
- "C04": ("vp-conn", True, "exploration", "structure-aware mutation + panic/allocation/termination monitors",
+ "C04": ("vp-conn", True, "exploration", "structure-aware mutation + panic/allocation/termination monitors; thorough: same binary under valgrind memcheck on a reduced workload",
    "One frame mutated at each position of each protocol state before and after encryption (lengths, inserted VarInts, byte substitutions, truncations, random bytes, RSA field classes) under four maximum frame sizes; monitors: panic of the handler task, largest single allocation requested while the handler is polled (counting global allocator), termination after EOF, bytes consumed after a refused length prefix. Evidence lists the state × mutation-class matrix.",
    "allocation requests are forwarded unchanged; a run that aborts the process would be inconclusive, not a violation", "DESIGN.md §5 C04"),
- "C05": ("vp-cipher", True, "exploration", "differential runtime monitor against an independent AES-128-CFB8; Miri on a reduced workload",
+ "C05": ("vp-cipher", True, "exploration", "differential runtime monitor against an independent AES-128-CFB8; thorough: Miri and valgrind memcheck (AES-NI path) on reduced workloads",
    "CipherStream is driven through thousands of write/read schedules (partial accepts, Pending, chunked reads, mid-stream switch) over a plan-driven transport; bytes accepted by the transport and bytes surfaced to the reader are compared with an AES/CFB8 written from FIPS-197. The connection-level part of the property (the switch to encryption in mid-stream) is observed by vp-conn: clients that pipeline across the switch, received in chunks of every size. Thorough additionally runs the stream oracles under Miri.",
    "reference AES/CFB8 self-tested against FIPS-197 / SP 800-38A vectors and the aes crate", "DESIGN.md §5 C05"),
  "C06": ("vp-conn", True, "exploration", "grammar acceptor over decoded clientbound sequences; complete single-deviation enumeration",
@@ -41,7 +41,7 @@ CHECKS = {
  "C08": ("vp-conn", True, "exploration", "trace-equivalence monitor: segmented/timed run vs unsegmented baseline",
    "For five baselines every split offset of every client frame, byte-at-a-time delivery, hostile read chunking and write acceptance, write stalls inside every clientbound frame, backend completions and keep-alive ticks landing inside half-received / half-sent frames (completion × frame × offset) and a pipelining client are executed; the observable trace (packets without Keep Alives, adapter calls, result) must equal the baseline's and the clientbound stream must decrypt and parse completely.",
    "per-connection nonces (verify token, session id, cookie timestamp, keep-alive ids) are masked", "DESIGN.md §5 C08"),
- "C09": ("vp-codec", True, "exploration", "differential runtime monitor against an independent reference codec; exhaustive VarInt sweep in thorough; Miri sample",
+ "C09": ("vp-codec", True, "exploration", "differential runtime monitor against an independent reference codec; exhaustive VarInt sweep in thorough; Miri and valgrind memcheck samples",
    "Every packet type's writer output is compared byte-for-byte with an independent encoder and its reader is fed reference bytes; VarInt round trip over all 2^32 values (thorough) and boundary-dense VarLong; enum ordinals outside the range must be rejected.",
    "text components outside the UTF-8 = MUTF-8 range are not judged", "DESIGN.md §5 C09"),
  "C10": ("vp-conn", True, "exploration", "two-connection history monitor with independent HMAC/JSON checks",
